@@ -279,6 +279,7 @@ class Loop:
         self.inner = []
         self.parent = None
         self.exit_cond = None
+        self.conds = []       # [(condition expr, truth on the path that stays in the loop)]
 
 
 class Access:
@@ -711,6 +712,9 @@ class Eval:
                 L = self.loops[H]
                 if L.exit_cond is None:
                     L.exit_cond = (d, b, outside)
+                zero_arm = [tg for v, tg in targets if v == 0]
+                truth = not (zero_arm and zero_arm[0] == inside[0])
+                L.conds.append((d, truth))
                 return inside[0]
         self.notes.append(f'bb{b}: symbolic branch on {X.show(d, 80) if isinstance(d, tuple) else d!r} with {len(alive)} live successors')
         # record a fork: evaluate each alternative independently (only outside loops)
